@@ -187,14 +187,18 @@ func runC15(c *Ctx) {
 			}
 		}
 		for _, site := range s.Find(f, "ccmd") {
-			cc := callCommon(site)
-			if n == "(*Client).cmd" {
+			if n == "(*Client).cmd" || thinCmdWrapper(f) != nil {
+				continue // a wrapper's operands are its parameters: judged where the wrapper is called
+			}
+			fmtV, _, fmtIsConst, operands, okP := cmdParts(site)
+			if !okP {
+				R.Ob(c.siteKey(site, "command parts resolved"), c.P.InstrPos(site), false, "cannot resolve format and operands of this command")
 				continue
 			}
-			if _, ok := constString(cc.Args[2]); !ok {
+			if !fmtIsConst {
 				// a computed FORMAT string is interpreted by fmt: only values that cannot contain '%' may be used
 				// (base64 output, the AUTH line built from the mechanism name and base64)
-				for _, v := range []ssa.Value{cc.Args[2]} {
+				for _, v := range []ssa.Value{fmtV} {
 					nSinks++
 					okFmt := true
 					why := ""
@@ -207,7 +211,7 @@ func runC15(c *Ctx) {
 					R.Ob(c.siteKey(site, "command format <- "+describe(v)), c.P.InstrPos(site), okFmt, why)
 				}
 			}
-			for _, v := range varargValues(cc.Args[3]) {
+			for _, v := range operands {
 				nSinks++
 				ok, why := c.sanitised(site, v)
 				R.Ob(c.siteKey(site, "command argument <- "+describe(v)), c.P.InstrPos(site), ok, why)
